@@ -466,10 +466,10 @@ Definition pub_send_sample (w : world) (p : nat) (o : off) : res (world * sres) 
 
 Inductive ares := AOk (o : off) | AErr (e : err).
 
-(* Sender::allocate: retrieve_returned_chunks; loan_counter >= max -> ExceedsMaxLoans;
-   data_segment.allocate -> OutOfMemory; borrow_chunk must return 0 (fatal_panic); loan_counter += 1 *)
-Definition pub_allocate (w : world) (p : nat) : res (world * ares) :=
-  let w1 := pub_retrieve w p in
+(* Sender::allocate: retrieve_returned_chunks; then (the allocation micro-step) loan_counter >= max
+   -> ExceedsMaxLoans; data_segment.allocate -> OutOfMemory; borrow_chunk must return 0
+   (fatal_panic); loan_counter += 1 *)
+Definition pub_allocate_core (w1 : world) (p : nat) : res (world * ares) :=
   let x := getp w1 p in
   if Nat.leb (p_L x) (p_loans x) then Val (w1, AErr EExceedsMaxLoans) else
   match p_free x with
@@ -479,6 +479,8 @@ Definition pub_allocate (w : world) (p : nat) : res (world * ares) :=
     if negb (N.eqb old 0) then Panic else
     Val (setp w1 p (p_set_loans x1 (S (p_loans x1))), AOk o)
   end.
+Definition pub_allocate (w : world) (p : nat) : res (world * ares) :=
+  pub_allocate_core (pub_retrieve w p) p.
 
 (* write_payload / payload_mut: the harness writes (publisher id, next sequence number) *)
 Definition pub_write (w : world) (p : nat) (o : off) : world :=
@@ -1114,6 +1116,7 @@ Definition conn_inv_b (w : world) (p s : nat) (c : conn) : bool :=
   let n := p_n (getp w p) in
   c_snd c && nodup_b (c_used c) && forallb (fun o => Nat.ltb o n) (c_used c)
   && same_multiset (c_used c) (map q_off (c_sub c) ++ borrowed w p s ++ c_comp c)      (* used = sub + borrowed + comp *)
+  && Nat.eqb (length (c_used c)) (length (c_sub c) + length (borrowed w p s) + length (c_comp c))
   && Nat.leb (length (c_sub c)) (c_B c)
   && (negb (c_rcv c) || (Nat.eqb (c_borrow c) (length (borrowed w p s)) && Nat.leb (c_borrow c) (c_M c)))
   && Nat.leb (length (c_sub c) + length (borrowed w p s) + length (c_comp c)) (c_B c + c_M c)
@@ -1136,5 +1139,32 @@ Definition pub_inv_b (w : world) (p : nat) : bool :=
                        | Some s => match getc w p s with None => false | Some c => conn_inv_b w p s c end
                        end) (p_tab x).
 
+(* a sample whose subscriber is still registered and whose publisher is still active: the
+   publisher still has the connection it came through *)
+Definition samples_covered_b (w : world) : bool :=
+  forallb (fun x => negb (p_active (getp w (x_origin x))) || negb (s_active (gets w (x_sub x)))
+                    || mem_off (x_sub x) (flat_map (fun e => match e with Some s => [s] | None => [] end) (p_tab (getp w (x_origin x)))))
+          (w_samples w).
+
 Definition inv_check (w : world) : bool :=
-  forallb (fun p => negb (p_active (getp w p)) || pub_inv_b w p) (seq 0 (length (w_pubs w))).
+  forallb (fun p => negb (p_active (getp w p)) || pub_inv_b w p) (seq 0 (length (w_pubs w)))
+  && samples_covered_b w.
+
+(* ---- oracles for the driver (C01) ------------------------------------------------------- *)
+(* after a receive() that returned None: no stored connection of a publisher that has left the
+   registry is empty and unborrowed (receive_from_to_be_removed_connections removes those) *)
+Definition stale_expired (w : world) (s : nat) : bool :=
+  existsb (fun key => match nth key (s_store (gets w s)) None with
+                      | None => false
+                      | Some e => negb (p_active (getp w (se_pub e)))
+                                  && (let '(d, b) := sub_data_borrows w s key in negb d && negb b)
+                      end) (seq 0 (length (s_store (gets w s)))).
+(* a connection that held undelivered samples for a subscriber that is still registered
+   disappeared: 1 = its receiver side was never attached (the subscriber had not updated its
+   connections before the publisher went away), 2 = it was attached (expired connection buffer
+   overflow discards data) *)
+Definition lost_delivery (w0 w1 : world) : nat :=
+  fold_left (fun acc k =>
+    let '(p, s, c) := k in
+    if sub_live w0 s && sub_live w1 s && c_has_data c && (match getc w1 p s with None => true | Some _ => false end)
+    then Nat.max acc (if c_rcv c then 2 else 1) else acc) (w_conns w0) 0.
